@@ -121,7 +121,7 @@ func (server *Server) HGet(conn *redis.Conn, key string, field string) (*redis.M
 	if !ok {
 		return redis.NewNilMessage(), nil
 	}
-	return redis.NewStringMessage(hashData), nil
+	return redis.NewBulkMessage(hashData), nil
 }
 
 func (server *Server) HGetAll(conn *redis.Conn, key string) (*redis.Message, error) {
